@@ -1,10 +1,10 @@
 CONSTANTS
-  MaxIn = 2
+  MaxIn = 1
   OutK = 1
   InK = 2
-  MaxWS = 1
+  MaxWS = 2
   MalWS = 0
-  WS <- WS1
+  WS <- WS3
   N = 0
 INIT ExhInit
 NEXT ExhNext
